@@ -117,6 +117,22 @@ func (d *dbound) lower0(v ssa.Value, at *ssa.BasicBlock, seen map[ssa.Value]bool
 			if a >= 0 && b >= 0 {
 				return a * b
 			}
+		case token.QUO:
+			// X / Y >= 1 when 1 <= Y <= X (a task count clamped to the iteration count); >= 0 when X >= 0 and Y >= 1
+			if b := d.lower(x.Y, x.Block(), seen); b >= 1 {
+				if leqValue(x.Y, x.X, x.Block()) {
+					return 1
+				}
+				if a := d.lower(x.X, x.Block(), seen); a >= 0 {
+					return 0
+				}
+			}
+		case token.REM:
+			if b := d.lower(x.Y, x.Block(), seen); b >= 1 {
+				if a := d.lower(x.X, x.Block(), seen); a >= 0 {
+					return 0
+				}
+			}
 		}
 	case *ssa.Call:
 		if b, isB := x.Call.Value.(*ssa.Builtin); isB && (b.Name() == "len" || b.Name() == "cap") {
@@ -129,6 +145,101 @@ func (d *dbound) lower0(v ssa.Value, at *ssa.BasicBlock, seen map[ssa.Value]bool
 		}
 	}
 	return negInf
+}
+
+// leqValue: y <= x holds at block `at`: y is x; or a comparison of y with x whose outcome is fixed on every path
+// to `at` says so; or y is a phi each of whose incoming values is x or is bounded by x on its edge (min(y0, x)).
+func leqValue(y, x ssa.Value, at *ssa.BasicBlock) bool {
+	y, x = core.StripConv(y), core.StripConv(x)
+	if y == x {
+		return true
+	}
+	says := func(cmp *ssa.BinOp, e ssa.Value, outcome bool) bool {
+		op := cmp.Op
+		switch {
+		case core.StripConv(cmp.X) == e && core.StripConv(cmp.Y) == x:
+		case core.StripConv(cmp.Y) == e && core.StripConv(cmp.X) == x:
+			switch op {
+			case token.LSS:
+				op = token.GTR
+			case token.LEQ:
+				op = token.GEQ
+			case token.GTR:
+				op = token.LSS
+			case token.GEQ:
+				op = token.LEQ
+			}
+		default:
+			return false
+		}
+		if !outcome {
+			op = negateCmp(op)
+		}
+		return op == token.LEQ || op == token.LSS || op == token.EQL
+	}
+	if at != nil {
+		if fn := at.Parent(); fn != nil {
+			for _, b := range fn.Blocks {
+				ifi, ok := b.Instrs[len(b.Instrs)-1].(*ssa.If)
+				if !ok || b.Succs[0] == b.Succs[1] {
+					continue
+				}
+				cmp, ok := ifi.Cond.(*ssa.BinOp)
+				if !ok {
+					continue
+				}
+				for si, succ := range b.Succs {
+					if len(succ.Preds) == 1 && succ.Dominates(at) && says(cmp, y, si == 0) {
+						return true
+					}
+				}
+			}
+		}
+	}
+	if phi, isPhi := y.(*ssa.Phi); isPhi {
+		for i, e := range phi.Edges {
+			e = core.StripConv(e)
+			if e == x {
+				continue
+			}
+			pred := phi.Block().Preds[i]
+			ok := false
+			// the edge itself is one arm of a comparison of e with x
+			if ifi, isIf := pred.Instrs[len(pred.Instrs)-1].(*ssa.If); isIf && pred.Succs[0] != pred.Succs[1] {
+				if cmp, isCmp := ifi.Cond.(*ssa.BinOp); isCmp && says(cmp, e, pred.Succs[0] == phi.Block()) {
+					ok = true
+				}
+			}
+			if !ok {
+				if _, isPhi2 := e.(*ssa.Phi); !isPhi2 && leqValue(e, x, pred) {
+					ok = true
+				}
+			}
+			if !ok {
+				return false
+			}
+		}
+		return true
+	}
+	return false
+}
+
+func negateCmp(op token.Token) token.Token {
+	switch op {
+	case token.LSS:
+		return token.GEQ
+	case token.LEQ:
+		return token.GTR
+	case token.GTR:
+		return token.LEQ
+	case token.GEQ:
+		return token.LSS
+	case token.EQL:
+		return token.NEQ
+	case token.NEQ:
+		return token.EQL
+	}
+	return op
 }
 
 // edgeRefinement: what the branch taken into the phi's block says about the incoming value e of edge i.
@@ -323,7 +434,7 @@ func RuleI1(c *Ctx) {
 			continue
 		}
 		n++
-		d := &dbound{fn: fn}
+		d := &dbound{fn: fn, assume: executorAssume}
 		// resolve the two arguments to what the parent supplies
 		resolve := func(a ssa.Value) (cell *ssa.Alloc, val ssa.Value) {
 			if u, isLoad := a.(*ssa.UnOp); isLoad && u.Op == token.MUL {
@@ -400,7 +511,7 @@ func RuleI1(c *Ctx) {
 		n++
 		key := fmt.Sprintf("Execute:inline-call#%d:end-start>=1", di)
 		di++
-		d := &dbound{fn: fn, startVal: call.Call.Args[0]}
+		d := &dbound{fn: fn, startVal: call.Call.Args[0], assume: executorAssume}
 		lo := d.diff(call.Call.Args[1], map[ssa.Value]bool{})
 		if lo >= 1 {
 			c.OK("I1", key, call.Pos(), "end-start >= "+showBound(lo))
@@ -428,26 +539,7 @@ func RuleI2(c *Ctx) {
 	}
 	c.Saw(core.FnName(fn))
 	d := &dbound{fn: fn}
-	d.assume = func(v ssa.Value) (int64, bool) {
-		switch x := v.(type) {
-		case *ssa.Parameter:
-			if x.Name() == "nbIterations" {
-				return 0, true
-			}
-		case *ssa.Call:
-			if f := x.Call.StaticCallee(); f != nil && f.Pkg != nil && f.Pkg.Pkg.Path() == "runtime" && f.Name() == "NumCPU" {
-				return 1, true
-			}
-		case *ssa.UnOp:
-			// maxCpus[0]: the explicit worker limit, m >= 1 by the property's quantifier
-			if ia, ok := x.X.(*ssa.IndexAddr); ok && x.Op == token.MUL {
-				if p, isP := ia.X.(*ssa.Parameter); isP && p.Name() == "maxCpus" {
-					return 1, true
-				}
-			}
-		}
-		return 0, false
-	}
+	d.assume = executorAssume
 	n := 0
 	for _, f := range core.Family(fn) {
 		core.AllInstrs(f, func(i ssa.Instruction) {
@@ -469,4 +561,28 @@ func RuleI2(c *Ctx) {
 		})
 	}
 	c.FloorN("I2", 1, n, "divisions in the executor")
+}
+
+// executorAssume: the lower bounds the property's quantifier gives (n >= 0, m >= 1, NumCPU >= 1).
+func executorAssume(v ssa.Value) (int64, bool) {
+	{
+		switch x := v.(type) {
+		case *ssa.Parameter:
+			if x.Name() == "nbIterations" {
+				return 0, true
+			}
+		case *ssa.Call:
+			if f := x.Call.StaticCallee(); f != nil && f.Pkg != nil && f.Pkg.Pkg.Path() == "runtime" && f.Name() == "NumCPU" {
+				return 1, true
+			}
+		case *ssa.UnOp:
+			// maxCpus[0]: the explicit worker limit, m >= 1 by the property's quantifier
+			if ia, ok := x.X.(*ssa.IndexAddr); ok && x.Op == token.MUL {
+				if p, isP := ia.X.(*ssa.Parameter); isP && p.Name() == "maxCpus" {
+					return 1, true
+				}
+			}
+		}
+		return 0, false
+	}
 }
